@@ -716,6 +716,7 @@ package engine
 //@ func Call
 //@   property C03
 //@   nosafety
+//@   ensures[a-promise] promise != nil
 //@   bind cs, cerr = compile#1
 //@   at-call clauses.call requires[one-off-procedure-compiled-from-the-goal] cerr == nil && a0 == cs && a1 == vm && a3 == k && a4 == env
 
@@ -1417,7 +1418,13 @@ package engine
 
 //@ func clauses.call$1
 //@   property C09
+//@   nosafety
 //@   captures-copy c clause
+
+//@ func clauses.call
+//@   property C03
+//@   nosafety
+//@   ensures[a-promise] result != nil
 
 //@ ---------------------------------------------------------------- loading a text (C20)
 
@@ -1430,7 +1437,7 @@ package engine
 //@   let n = len(t.buf)
 //@   let was = has(t.clauses, t.buf[0].pi)
 //@   let before = len(t.clauses[t.buf[0].pi].clauses)
-//@   modifies heap
+//@   modifies t.buf, t.clauses, class userDefined, class clause
 //@   ensures[an-empty-run-is-a-no-op] n == 0 ==> result == nil && len(t.buf) == 0
 //@   ensures[separated-clauses-need-discontiguous] n > 0 && was && before > 0 && !old(t.clauses[pi].discontiguous) ==> result != nil && len(t.buf) == n
 //@   ensures[otherwise-the-run-is-taken] n > 0 && !(was && before > 0 && !old(t.clauses[pi].discontiguous)) ==> result == nil && len(t.buf) == 0 && has(t.clauses, pi) && t.clauses[pi] != nil
@@ -1438,3 +1445,29 @@ package engine
 //@       forall j int :: 0 <= j && j < n ==> t.clauses[pi].clauses[ite(was, before, 0) + j].raw == old(t.buf[j].raw) && t.clauses[pi].clauses[ite(was, before, 0) + j].bytecode == old(t.buf[j].bytecode)
 //@   ensures[earlier-clauses-keep-their-place] result == nil && n > 0 && was ==> forall j int :: 0 <= j && j < before ==> t.clauses[pi].clauses[j].raw == old(t.clauses[pi].clauses[j].raw)
 //@   ensures[the-buffer-keeps-its-own-array] result == nil && n > 0 ==> backing(t.clauses[pi].clauses) != backing(t.buf)
+
+//@ -- the per-term loop of a load (parsing, expansion, directives): assumed not to touch the procedure table
+//@ -- ("side-effect-free directives" of the property statement) and to keep the text's invariants
+//@ func (*VM).compile
+//@   trusted
+//@   modifies heap
+//@   ensures[directives-do-not-define-procedures] vm.procedures == old(vm.procedures) && forall q procedureIndicator :: has(vm.procedures, q) == old(has(vm.procedures, q)) && vm.procedures[q] == old(vm.procedures[q])
+//@   ensures[text-invariants] result == nil ==> text.clauses != nil &&
+//@       (forall q procedureIndicator :: has(text.clauses, q) ==> text.clauses[q] != nil) &&
+//@       (forall q procedureIndicator :: has(text.clauses, q) ==> backing(text.clauses[q].clauses) != backing(text.buf) || backing(text.buf) == nil)
+
+//@ func (*VM).Compile
+//@   property C20
+//@   requires vm != nil
+//@   nosafety
+//@   bind cerr = (*VM).compile#1
+//@   bind ferr = (*text).flush#1
+//@   ensures[a-failed-load-defines-nothing] cerr != nil || (called(ferr) && ferr != nil) ==>
+//@       forall q procedureIndicator :: has(vm.procedures, q) == old(has(vm.procedures, q)) && vm.procedures[q] == old(vm.procedures[q])
+//@   ensures[errors-of-the-text-are-reported] cerr != nil ==> result == cerr
+//@   ensures[a-separated-predicate-is-reported] cerr == nil && called(ferr) && ferr != nil ==> result == ferr
+
+//@ func WriteTerm
+//@   trusted
+//@   modifies heap
+//@   ensures result != nil
